@@ -99,7 +99,7 @@ fn check_step(p: &GhostProvider, i: usize, n: usize, inp: &PskSecretInput, prev:
 
 #[kani::proof]
 #[kani::stub(zeroize::optimization_barrier, noop_barrier)]
-#[kani::unwind(12)]
+#[kani::unwind(82)]
 fn c13_psk_secret_0() {
     let p = GhostProvider::new();
     let r = PskSecret::calculate(&[], &p);
@@ -111,136 +111,170 @@ fn c13_psk_secret_0() {
     assert!(is_out(&PskSecret::new(&p), 0, NH));
 }
 
-// one PSK: both types, id / group id and nonce of every length 0..=2, value of length 0..=2
+// the real PSKLabel encoder against the oracle: both types (one harness each), id / group id
+// and nonce of every length 0..=2, all values symbolic
+fn psk_label_case(resumption: bool, id: &[u8], nonce: &[u8]) {
+    let pid = make_id(resumption, id, nonce);
+    let (index, count): (u16, u16) = (kani::any(), kani::any());
+    let l = PSKLabel { id: &pid, index, count }.mls_encode_to_vec();
+    assert!(l.is_ok());
+    assert!(bytes_eq(&l.ok().unwrap(), &rfc_psk_label(&pid, index, count)));
+    core::mem::forget(pid);
+}
+
 #[kani::proof]
-#[kani::stub(zeroize::optimization_barrier, noop_barrier)]
-#[kani::unwind(12)]
-fn c13_psk_secret_1_bounded_2() {
+#[kani::unwind(82)]
+fn c13_psk_label_encoding_external_bounded_2() {
     let i: [u8; 2] = kani::any();
     let n: [u8; 2] = kani::any();
-    let value = any_bytes::<2>();
-    for_each_bool(|resumption| {
-        for_each_prefix(&i, |id| {
-            for_each_prefix(&n, |nonce| {
-                let p = GhostProvider::new();
-                let a = PskSecretInput {
-                    id: make_id(resumption, id, nonce),
-                    psk: PreSharedKey::new(value.clone()),
-                };
-                let input = [a.clone()];
-                let r = PskSecret::calculate(&input, &p);
-                assert!(r.is_ok());
-                let s = r.ok().unwrap();
-                assert!(p.calls() == 3);
-                check_step(&p, 0, 1, &a, &[0u8; NH]);
-                assert!(is_out(&s, 3, NH));
-                core::mem::forget((input, a));
-            })
-        })
-    });
+    for_each_prefix(&i, |id| for_each_prefix(&n, |nonce| psk_label_case(false, id, nonce)));
 }
 
-// two PSKs, every combination of types; ids and nonces of 1 byte, values of 0..=2 bytes
 #[kani::proof]
-#[kani::stub(zeroize::optimization_barrier, noop_barrier)]
-#[kani::unwind(12)]
-fn c13_psk_secret_2_bounded_1() {
-    for_each_bool(|ra| {
-        for_each_bool(|rb| {
-            let p = GhostProvider::new();
-            let a = small_input(ra);
-            let b = small_input(rb);
-            let input = [a.clone(), b.clone()];
-            let r = PskSecret::calculate(&input, &p);
-            assert!(r.is_ok());
-            let s = r.ok().unwrap();
-            assert!(p.calls() == 6);
-            check_step(&p, 0, 2, &a, &[0u8; NH]);
-            check_step(&p, 1, 2, &b, &out(3, NH));
-            assert!(is_out(&s, 6, NH));
-            core::mem::forget((input, a, b));
-        })
-    });
+#[kani::unwind(82)]
+fn c13_psk_label_encoding_resumption_bounded_2() {
+    let i: [u8; 2] = kani::any();
+    let n: [u8; 2] = kani::any();
+    for_each_prefix(&i, |id| for_each_prefix(&n, |nonce| psk_label_case(true, id, nonce)));
 }
 
-// a provider failure at any step is reported as CryptoProviderError and stops the chain
-#[kani::proof]
-#[kani::stub(zeroize::optimization_barrier, noop_barrier)]
-#[kani::unwind(12)]
-fn c13_psk_secret_provider_error() {
-    let at: usize = kani::any();
-    kani::assume(at < 6);
-    let p = GhostProvider::failing_at(at);
-    let input = [small_input(false), small_input(true)];
+// one PSK (1-byte id, 1-byte nonce, value of 0..=2 bytes), both types
+fn psk_secret_1_case(resumption: bool) {
+    let p = GhostProvider::new();
+    let a = small_input(resumption);
+    let input = [a.clone()];
     let r = PskSecret::calculate(&input, &p);
-    assert!(is_provider_error(&r));
-    assert!(p.calls() == at + 1);
-    core::mem::forget((r, input));
+    assert!(r.is_ok());
+    let s = r.ok().unwrap();
+    assert!(p.calls() == 3);
+    check_step(&p, 0, 1, &a, &[0u8; NH]);
+    assert!(is_out(&s, 3, NH));
+    core::mem::forget((input, a));
 }
 
-// ------------------------------------------------------------------ C18
-// Order: the KDF inputs of [A, B] and of [B, A] coincide only if A and B are the same PSK
-// (same id, nonce and value).  In the ghost model distinct inputs are distinct terms, so
-// swapping two different PSKs changes psk_secret and with it every secret of the epoch.
 #[kani::proof]
 #[kani::stub(zeroize::optimization_barrier, noop_barrier)]
-#[kani::unwind(12)]
-fn c18_psk_order_bounded_1() {
-    for_each_bool(|ra| {
-        for_each_bool(|rb| {
-            let a = small_input(ra);
-            let b = small_input(rb);
-            let p = GhostProvider::new();
-            let q = GhostProvider::new();
-            let ab = [a.clone(), b.clone()];
-            let ba = [b.clone(), a.clone()];
-            let r1 = PskSecret::calculate(&ab, &p);
-            let r2 = PskSecret::calculate(&ba, &q);
-            assert!(r1.is_ok() && r2.is_ok());
-            let same = p.same_trace(&q);
-            if same {
-                assert!(a.id == b.id);
-                assert!(bytes_eq(a.psk.raw_value(), b.psk.raw_value()));
-            }
-            core::mem::forget((r1, r2, ab, ba, a, b));
-        })
-    });
+#[kani::unwind(82)]
+fn c13_psk_secret_1_external_bounded_1() {
+    psk_secret_1_case(false);
 }
 
-// Id, nonce, index, count: the real encoder of the PSKLabel that enters the chain is the RFC
-// encoding and is injective: two labels with the same bytes have the same id (type, id /
-// usage, group, epoch, nonce), index and count.  Ids and nonces of every length 0..=1.
 #[kani::proof]
-#[kani::unwind(12)]
-fn c18_psk_label_injective_bounded_1() {
+#[kani::stub(zeroize::optimization_barrier, noop_barrier)]
+#[kani::unwind(82)]
+fn c13_psk_secret_1_resumption_bounded_1() {
+    psk_secret_1_case(true);
+}
+
+// two PSKs, every combination of types (one harness each); ids and nonces of 1 byte, values
+// of 0..=2 bytes
+fn psk_secret_2_case(ra: bool, rb: bool) {
+    let p = GhostProvider::new();
+    let a = small_input(ra);
+    let b = small_input(rb);
+    let input = [a.clone(), b.clone()];
+    let r = PskSecret::calculate(&input, &p);
+    assert!(r.is_ok());
+    let s = r.ok().unwrap();
+    assert!(p.calls() == 6);
+    check_step(&p, 0, 2, &a, &[0u8; NH]);
+    check_step(&p, 1, 2, &b, &out(3, NH));
+    assert!(is_out(&s, 6, NH));
+    core::mem::forget((input, a, b));
+}
+
+// Order (C18): the KDF inputs of [A, B] and of [B, A] coincide only if A and B are the same
+// PSK (same id, nonce and value).  In the ghost model distinct inputs are distinct terms, so
+// swapping two different PSKs changes psk_secret and with it every secret of the epoch.
+fn psk_order_case(ra: bool, rb: bool) {
+    let a = small_input(ra);
+    let b = small_input(rb);
+    let p = GhostProvider::new();
+    let q = GhostProvider::new();
+    let ab = [a.clone(), b.clone()];
+    let ba = [b.clone(), a.clone()];
+    let r1 = PskSecret::calculate(&ab, &p);
+    let r2 = PskSecret::calculate(&ba, &q);
+    assert!(r1.is_ok() && r2.is_ok());
+    if p.same_trace(&q) {
+        assert!(a.id == b.id);
+        assert!(bytes_eq(a.psk.raw_value(), b.psk.raw_value()));
+    }
+    core::mem::forget((r1, r2, ab, ba, a, b));
+}
+
+// Id, nonce, index, count (C18): the real PSKLabel encoder is injective: two labels with the
+// same bytes have the same id (type, id / usage, group, epoch, nonce), index and count.  Ids
+// and nonces of every length 0..=1.
+fn psk_label_injective_case(ra: bool, rb: bool) {
     let b1: [u8; 1] = kani::any();
     let b2: [u8; 1] = kani::any();
     let b3: [u8; 1] = kani::any();
     let b4: [u8; 1] = kani::any();
     let (xa, xb): (u16, u16) = (kani::any(), kani::any());
     let (ca, cb): (u16, u16) = (kani::any(), kani::any());
-    for_each_bool(|ra| {
-        for_each_bool(|rb| {
-            for_each_prefix(&b1, |id_a| {
-                for_each_prefix(&b2, |nonce_a| {
-                    for_each_prefix(&b3, |id_b| {
-                        for_each_prefix(&b4, |nonce_b| {
-                            let ia = make_id(ra, id_a, nonce_a);
-                            let ib = make_id(rb, id_b, nonce_b);
-                            let la = PSKLabel { id: &ia, index: xa, count: ca }.mls_encode_to_vec();
-                            let lb = PSKLabel { id: &ib, index: xb, count: cb }.mls_encode_to_vec();
-                            assert!(la.is_ok() && lb.is_ok());
-                            let (la, lb) = (la.ok().unwrap(), lb.ok().unwrap());
-                            assert!(bytes_eq(&la, &rfc_psk_label(&ia, xa, ca)));
-                            let same = bytes_eq(&la, &lb);
-                            if same {
-                                assert!(ia == ib && xa == xb && ca == cb);
-                            }
-                            core::mem::forget((ia, ib));
-                        })
-                    })
+    for_each_prefix(&b1, |id_a| {
+        for_each_prefix(&b2, |nonce_a| {
+            for_each_prefix(&b3, |id_b| {
+                for_each_prefix(&b4, |nonce_b| {
+                    let ia = make_id(ra, id_a, nonce_a);
+                    let ib = make_id(rb, id_b, nonce_b);
+                    let la = PSKLabel { id: &ia, index: xa, count: ca }.mls_encode_to_vec();
+                    let lb = PSKLabel { id: &ib, index: xb, count: cb }.mls_encode_to_vec();
+                    assert!(la.is_ok() && lb.is_ok());
+                    let (la, lb) = (la.ok().unwrap(), lb.ok().unwrap());
+                    if bytes_eq(&la, &lb) {
+                        assert!(ia == ib && xa == xb && ca == cb);
+                    }
+                    core::mem::forget((ia, ib));
                 })
             })
         })
+    });
+}
+
+macro_rules! per_type_pair {
+    ($(($ra:literal, $rb:literal): $two:ident, $order:ident, $inj:ident);* $(;)?) => { $(
+        #[kani::proof]
+        #[kani::stub(zeroize::optimization_barrier, noop_barrier)]
+        #[kani::unwind(82)]
+        fn $two() {
+            psk_secret_2_case($ra, $rb);
+        }
+
+        #[kani::proof]
+        #[kani::stub(zeroize::optimization_barrier, noop_barrier)]
+        #[kani::unwind(82)]
+        fn $order() {
+            psk_order_case($ra, $rb);
+        }
+
+        #[kani::proof]
+        #[kani::unwind(82)]
+        fn $inj() {
+            psk_label_injective_case($ra, $rb);
+        }
+    )* };
+}
+
+per_type_pair!(
+    (false, false): c13_psk_secret_2_ext_ext_bounded_1, c18_psk_order_ext_ext_bounded_1, c18_psk_label_injective_ext_ext_bounded_1;
+    (false, true): c13_psk_secret_2_ext_res_bounded_1, c18_psk_order_ext_res_bounded_1, c18_psk_label_injective_ext_res_bounded_1;
+    (true, false): c13_psk_secret_2_res_ext_bounded_1, c18_psk_order_res_ext_bounded_1, c18_psk_label_injective_res_ext_bounded_1;
+    (true, true): c13_psk_secret_2_res_res_bounded_1, c18_psk_order_res_res_bounded_1, c18_psk_label_injective_res_res_bounded_1;
+);
+
+// a provider failure at any step is reported as CryptoProviderError and stops the chain
+#[kani::proof]
+#[kani::stub(zeroize::optimization_barrier, noop_barrier)]
+#[kani::unwind(82)]
+fn c13_psk_secret_provider_error() {
+    for_each_below(3, |at| {
+        let p = GhostProvider::failing_at(at as usize);
+        let input = [small_input(false)];
+        let r = PskSecret::calculate(&input, &p);
+        assert!(is_provider_error(&r));
+        assert!(p.calls() == at as usize + 1);
+        core::mem::forget((r, input));
     });
 }
